@@ -32,6 +32,7 @@ Definition dispatch (op : Z) (x : sx) : sx :=
   | 18 => C18.Run.run x
   | 13 => C13.Run.run x
   | 113 => C13.Run.run_sparse x
+  | 213 => C13.Run.run_encode_cat x
   | 14 => C14.Run.run x
   | 15 => C15.Run.run x
   | 16 => C16.Run.run x
